@@ -290,4 +290,48 @@ theorem gen_uniform_eq_model (minval maxval : NArr ℝ) {s : List Nat} (h : bcas
   rw [map_snd_zipWith, map_fst_zipWith _ _ _ _ (by simp [broadcastTo_length]), broadcastTo_length, zipWith_zipWith_swap]
   rfl
 
+
+/-! ### `StudentT` -/
+
+theorem map_zipWith3 {δ : Type} (c : ℝ → δ) (f : ℝ → ℝ → Bij ℝ Unit ℝ) : ∀ (D L S : List ℝ), D.length = L.length → L.length = S.length →
+    (List.zipWith3 (fun d l σ => ((c d, f l σ) : δ × Bij ℝ Unit ℝ)) D L S).map Prod.fst = D.map c ∧
+    (List.zipWith3 (fun d l σ => ((c d, f l σ) : δ × Bij ℝ Unit ℝ)) D L S).map Prod.snd = List.zipWith f L S
+  | [], [], [], _, _ => by simp [List.zipWith3]
+  | [], _ :: _, _, h, _ => by simp at h
+  | _ :: _, [], _, h, _ => by simp at h
+  | _ :: _, _ :: _, [], _, h => by simp at h
+  | [], [], _ :: _, _, h => by simp at h
+  | d :: D, l :: L, σ :: S, h1, h2 => by
+    obtain ⟨i1, i2⟩ := map_zipWith3 c f D L S (by simpa using h1) (by simpa using h2)
+    simp [List.zipWith3, i1, i2]
+
+theorem any_leZero_false : ∀ (D : List ℝ), (∀ d ∈ D, 0 < d) → (D.map (fun x => decide (x ≤ 0))).any id = false
+  | [], _ => by simp
+  | d :: D, h => by
+    have ih := any_leZero_false D (fun x hx => h x (by simp [hx]))
+    simp only [List.map_cons, List.any_cons, id, ih, Bool.or_false, decide_eq_false_iff_not, not_le]
+    exact h d (by simp)
+
+/-- `_StandardStudentT(df)`: accepted for positive entries, stores `BijectionReparam(df, SoftPlus())` -/
+theorem student_init_eq (df : NArr ℝ) (hpos : ∀ d ∈ df.data, 0 < d) :
+    GenFam.StandardStudentT.init df = some { shape := df.shape, df := Gen.Wr.BijectionReparam.init df softPlus } := by
+  simp [GenFam.StandardStudentT.init, toArray, errorIf, leZero, any_leZero_false _ hpos, shapeOf]
+
+/-- `StudentT(df, loc, scale)`: every triple of shapes that broadcast, every entry of `df` positive -/
+theorem gen_studentT_eq_model (df loc scale : NArr ℝ) {s : List Nat}
+    (h : Vec.broadcastShapes [df.shape, loc.shape, scale.shape] = some s) (hpos : ∀ d ∈ (broadcastTo df s).data, 0 < d) :
+    (GenFam.StudentT.init df loc scale).map studentTDist
+      = some (lifted (List.zipWith3 studentTComp (broadcastTo df s).data (broadcastTo loc s).data (broadcastTo scale s).data)) := by
+  have hc : studentTComp (α := ℝ) = fun d l σ => ((StdStudentT.mk (studentDf d)).logProb, (Ctors.affine l σ).toBij) := rfl
+  have haff := affine_init_eq (broadcastTo loc s) (broadcastTo scale s) (s := s) (bcast2_self s)
+  have h1 : broadcastTo (broadcastTo loc s) s = broadcastTo loc s := broadcastTo_self _ (broadcastTo_wf loc s)
+  have h2 : broadcastTo (broadcastTo scale s) s = broadcastTo scale s := broadcastTo_self _ (broadcastTo_wf scale s)
+  simp only [GenFam.StudentT.init, broadcastArrays3, h, Option.map_some, Option.bind_some, student_init_eq _ hpos, haff, h1, h2,
+    Option.some.injEq]
+  simp only [studentTDist, Transformed.toDistWith, affine_toBij, StdStudentT.toDist, reparam_unwrap_data, List.map_map, lifted, hc]
+  obtain ⟨i1, i2⟩ := map_zipWith3 (fun d => (StdStudentT.mk (studentDf d)).logProb) (fun l σ => (Ctors.affine l σ).toBij)
+    (broadcastTo df s).data (broadcastTo loc s).data (broadcastTo scale s).data (by simp [broadcastTo_length]) (by simp [broadcastTo_length])
+  rw [i1, i2]
+  rfl
+
 end FamGenPf
